@@ -29,7 +29,9 @@ RULE = ("Hypothesis-generated sessions of 1-6 concurrent to_thread.run_sync call
         "any order and cancels callers at any stage (queued for the limiter, function running, after its gate opened), by "
         "cancel scope or natively (Task.cancel()); a caller task issues one or several calls in a row and survives "
         "their cancellation; calls may wait for an earlier call to have entered its function; "
-        "generated call_soon_threadsafe latencies (stock loop); non-trivial = more concurrent calls than tokens, or a "
+        "generated call_soon_threadsafe latencies (stock loop, also with the eager task factory); callbacks that shield "
+        "their work; thread functions that return exception objects; a sub-case with two event loops in one process; "
+        "non-trivial = more concurrent calls than tokens, or a "
         "caller cancelled while its function runs; distinct = distinct canonical JSON")
 ASSUMPTIONS = [
     "thread interleavings inside anyio's worker-thread code finer than the harness' gates and injected "
